@@ -67,6 +67,10 @@ E2_CHECKS = {
 CHECKS.update(E2_CHECKS)
 HOOK_COMMITS.append("1b683f3")
 
+CHECKS["C08"] = ("model_checking", "explicit-state search over (receive buffer, spare capacity, adaptor buffer) with every transition executed on real loopback UDP sockets in lock-step",
+         "States are the connection's buffer/spare-capacity/adaptor-buffer triples reached by datagram histories (both adaptors, both modes); actions are datagrams of 6-16 compositions (1..255 packets, 4..1020 bytes); every spare-capacity value (multiples of 4 from 6120 down to 0 and across the reclaim) is reached and every composition is tried in it; oracle: the packets read equal the frames of the datagram just sent; every kind's packet leaves as exactly one datagram holding its frame.",
+         "Loopback UDP, one datagram in flight; 400 ms search watchdog, witnesses re-confirmed with a 2 s watchdog.", "DESIGN.md §4 C08", "E2")
+
 NOT_BUILT = {}
 
 def main():
